@@ -4,7 +4,7 @@
 (* could be created as file names)}}.                                        *)
 EXTENDS Glob, TraceLib
 
-InDomain(in) == GlobInDomain(in.pat, in.fold)
+InDomain(in, obs) == GlobInDomain(in.pat, in.fold)
 
 Expected(in) == SelectSeq([k \in DOMAIN in.subjects |-> k], LAMBDA k : GlobMatch(in.pat, in.subjects[k], in.fold))
 
